@@ -59,10 +59,15 @@ def cases(thorough):
                 for v1 in sub:
                     for v2 in sub[: (7 if thorough else 4)]:
                         for masses in ((1.0, 1.0), (1.0, 2.0)):
-                            for win in ("dx8", "dx4.4-origin", "none"):
+                            for win in ("dx8", "dx4.4-origin", "none", "dx4.4-origin-in-m", "dx-in-m-origin-in-km"):
+                                if win.endswith(("-m", "-km")) and (masses == (1.0, 2.0) or v2 != sub[0]) and not thorough:
+                                    continue
                                 if not thorough and win == "none" and masses == (1.0, 2.0):
                                     continue
-                                yield {"kind": view, "pos": [list(p1), list(p2), [2.0, 1.0, 0.0]], "vel": [list(v1), list(v2), [0.0, 1.0, -1.0]],
+                                # (for the windows whose origin is written in another unit, the third cell lies inside the sphere but more
+                                #  than one radius away from the coordinate origin along x)
+                                third = [3.0, 0.5, 0.0] if win.endswith(("-m", "-km")) else [2.0, 1.0, 0.0]
+                                yield {"kind": view, "pos": [list(p1), list(p2), third], "vel": [list(v1), list(v2), [0.0, 1.0, -1.0]],
                                        "mass": [masses[0], masses[1], 1.0], "window": win}
 
 
@@ -270,6 +275,13 @@ def run_case(acc, idx, c):
                 elif c["window"] == "dx4.4-origin":
                     dx, R, o = 4.4 * osyris.units("cm"), 2.2, np.array([1.0, 0.0, 0.0])
                     origin = V_(*o, unit="cm")
+                elif c["window"] == "dx4.4-origin-in-m":
+                    # the same window, the origin written in another unit than the positions
+                    dx, R, o = 4.4 * osyris.units("cm"), 2.2, np.array([1.0, 0.0, 0.0])
+                    origin = V_(*(o / 100.0), unit="m")
+                elif c["window"] == "dx-in-m-origin-in-km":
+                    dx, R, o = 0.044 * osyris.units("m"), 2.2, np.array([1.0, 0.0, 0.0])
+                    origin = V_(*(o / 1.0e5), unit="km")
                 else:
                     dx, origin, o = None, None, np.zeros(3)
                     R = 0.5 * sum(pos[:, i].max() - pos[:, i].min() for i in range(3)) / 3.0
